@@ -1,13 +1,54 @@
 (* C07_metrics.v — metric functions, ndim==1 branch vs batch branch.  PARTIAL: the scalar branches of qdist/qeip/qcip/qad
    return 0 through an `allclose` shortcut the batch branches lack (known finding); outside the shortcut they agree. *)
-From Coq Require Import Reals List Lra.
+From Coq Require Import Reals List Lra Psatz.
 From AhrsLib Require Import Base.
 From AhrsGen Require Import C07gen_R.
 From AhrsProps Require Import C07_tac.
 Import ListNotations.
 Open Scope R_scope.
 
-Ltac twin_shortcut := cbv zeta; repeat (head_dec; try (right; reflexivity)); left; same_val.
+(* the batch branch of qcip clips |q1.q2| to [-1,1] (a floating-point guard); over the reals the clip is the identity, by
+   Cauchy-Schwarz on the two normalised quaternions (also when a norm is 0: the row is then 0) *)
+Lemma cs4 u1 u2 u3 u4 v1 v2 v3 v4 :
+  u1*u1 + u2*u2 + u3*u3 + u4*u4 <= 1 -> v1*v1 + v2*v2 + v3*v3 + v4*v4 <= 1 ->
+  Rabs (u1*v1 + u2*v2 + u3*v3 + u4*v4) <= 1.
+Proof.
+  intros Hu Hv. set (D := u1*v1 + u2*v2 + u3*v3 + u4*v4).
+  assert (L : D * D <= (u1*u1 + u2*u2 + u3*u3 + u4*u4) * (v1*v1 + v2*v2 + v3*v3 + v4*v4)).
+  { unfold D.
+    assert (E : (u1*u1 + u2*u2 + u3*u3 + u4*u4) * (v1*v1 + v2*v2 + v3*v3 + v4*v4) - (u1*v1 + u2*v2 + u3*v3 + u4*v4) * (u1*v1 + u2*v2 + u3*v3 + u4*v4)
+      = (u1*v2-u2*v1)*(u1*v2-u2*v1) + (u1*v3-u3*v1)*(u1*v3-u3*v1) + (u1*v4-u4*v1)*(u1*v4-u4*v1)
+      + (u2*v3-u3*v2)*(u2*v3-u3*v2) + (u2*v4-u4*v2)*(u2*v4-u4*v2) + (u3*v4-u4*v3)*(u3*v4-u4*v3)) by ring.
+    pose proof (Rle_0_sqr (u1*v2-u2*v1)). pose proof (Rle_0_sqr (u1*v3-u3*v1)). pose proof (Rle_0_sqr (u1*v4-u4*v1)).
+    pose proof (Rle_0_sqr (u2*v3-u3*v2)). pose proof (Rle_0_sqr (u2*v4-u4*v2)). pose proof (Rle_0_sqr (u3*v4-u4*v3)).
+    unfold Rsqr in *. lra. }
+  assert (Su : 0 <= u1*u1 + u2*u2 + u3*u3 + u4*u4) by nra.
+  assert (Sv : 0 <= v1*v1 + v2*v2 + v3*v3 + v4*v4) by nra.
+  assert (L1 : D * D <= 1) by nra.
+  unfold Rabs. destruct (Rcase_abs D); nra.
+Qed.
+
+Lemma normed_le1 a b c d :
+  let n := sqrt (a*a + b*b + c*c + d*d) in a/n*(a/n) + b/n*(b/n) + c/n*(c/n) + d/n*(d/n) <= 1.
+Proof.
+  intros n. assert (S0 : 0 <= a*a + b*b + c*c + d*d) by nra.
+  destruct (Rlt_dec 0 (a*a + b*b + c*c + d*d)) as [P|Z].
+  - assert (Hn : n * n = a*a + b*b + c*c + d*d) by (apply sqrt_sqrt; lra).
+    assert (Hp : 0 < n) by (apply sqrt_lt_R0; exact P).
+    right. field_simplify_eq; [|lra]. ring [Hn].
+  - assert (a = 0 /\ b = 0 /\ c = 0 /\ d = 0) as (-> & -> & -> & ->) by (repeat split; nra).
+    unfold Rdiv. rewrite !Rmult_0_l. lra.
+Qed.
+
+Lemma clip_id x : -1 <= x <= 1 -> Rmin (Rmax x (-1)) 1 = x.
+Proof. intros H. unfold Rmax. destruct (Rle_dec x (-1)); unfold Rmin; destruct (Rle_dec _ 1); lra. Qed.
+
+Ltac unclip_dot :=
+  repeat match goal with
+  | |- context [Rmin (Rmax (Rabs ?x) (-1)) 1] =>
+      rewrite (clip_id (Rabs x)) by (split; [pose proof (Rabs_pos x); lra | apply cs4; apply normed_le1])
+  end.
+Ltac twin_shortcut := cbv zeta; unclip_dot; repeat (head_dec; try (right; reflexivity)); left; same_val.
 
 Lemma qdist_twin_partial a b c d w x y z :
   C07_qdist_b1_R a b c d w x y z = C07_qdist_s_R a b c d w x y z \/ C07_qdist_s_R a b c d w x y z = Val [0].
